@@ -7,10 +7,11 @@
          insert_card/remove_card have no error exit after a mutation.
   C16.W  walk/get wiring: visit_children* enumerate iter_children*, get_card* descend with get_child*.
 """
-from cao.facts import callee_names, DefUse, op_local, short
+from cao.facts import callee_names, DefUse, op_local, short, hir_walk, hir_callee
 from cao.rules import Rule, ok, bad, undecided, note
 from cao import cardshape as cs
 from cao import mirutil as mu
+from cao import hirutil as hu
 
 EXPLANATION = (
     "C16.S abstracts each arm of the seven Card accessors (HIR with typeck types) into its decision structure over "
@@ -271,6 +272,45 @@ def rule_a(F):
                               error_paths=n_paths, replace_calls=len(repl)))
         except cs.Undecided as e:
             res.append(undecided("C16.A", "C16/A/swap_cards/error-paths-restore", f.loc(), str(e)))
+    # swapping a card with itself: the take-out / put-back protocol would exchange the card with its own placeholder, so
+    # equal indices have to be answered before the first replace_card
+    eqs = []
+    for bi, b in enumerate(f.blocks):
+        t = b["term"]
+        if t["k"] == "call" and any(n.endswith("PartialEq::eq") or n.endswith("PartialEq::ne") for n in callee_names(t["func"])):
+            tys = t.get("arg_tys", [])
+            if len(tys) == 2 and all("CardIndex" in x for x in tys):
+                eqs.append(bi)
+    first_repl = [b for b in repl if not any(cfg.dominates(o, b) and o != b for o in repl)]
+    key = "C16/A/swap_cards/same-index-is-identity"
+    if eqs and repl and all(any(cfg.dominates(e, r) for e in eqs) for r in first_repl):
+        res.append(ok("C16.A", key, f.loc(), "equal indices are tested before the first card is taken out"))
+    else:
+        res.append(bad("C16.A", key, f.loc(),
+                       "swap_cards takes the first card out (leaving a placeholder) without having compared the two indices: for equal "
+                       "indices the card is exchanged with its own placeholder - the call returns Ok and the card is replaced by ScalarNil"))
+    # a swap is refused on structural grounds only by looking at whole indices: a test that compares the in-function paths of
+    # the two indices without their `function` component treats cards of different functions as relatives
+    anc = hu.control_ancestors(f.hir["body"])
+    ifs = {id(x): x for x in hir_walk(f.hir["body"]) if x.get("k") == "if"}
+    partial = []
+    for x in hir_walk(f.hir["body"]):
+        if x.get("k") == "ret" and hu.is_error_ret(x):
+            for kind, nid in anc.get(id(x), ()):
+                node = ifs.get(nid)
+                if node is None:
+                    continue
+                names = set(y["name"] for y in hir_walk(node["cond"]) if y.get("k") == "field")
+                calls = set(c for y in hir_walk(node["cond"]) if y.get("k") in ("call", "mcall") for c in hir_callee(y))
+                if "card_index" in names and "function" not in names and not any(c.endswith("get_card") or c.endswith("replace_card") for c in calls):
+                    partial.append(node)
+    key = "C16/A/swap_cards/refusals-compare-whole-indices"
+    if partial:
+        res.append(bad("C16.A", key, f.loc(partial[0]["ln"]),
+                       "swap_cards refuses a swap after comparing only the in-function paths (`card_index`) of the two indices, not their "
+                       "`function`: two unrelated cards in different functions whose paths are prefix-related (0.0 and 1.0.1) cannot be swapped"))
+    else:
+        res.append(ok("C16.A", key, f.loc(), "no refusal is decided on partial indices"))
     # insert_card / remove_card: no error exit after a mutation
     MUT = ("std::vec::Vec::insert", "std::vec::Vec::remove", "compiler::card::Card::insert_child",
            "compiler::card::Card::remove_child", "std::mem::replace", "core::mem::replace", "std::vec::Vec::push",
@@ -371,6 +411,6 @@ def rule_w(F):
 
 RULES = [
     Rule("C16.S", rule_s, 290, "seven accessors agree on the child shape of every CardBody variant; invalid indices fail"),
-    Rule("C16.A", rule_a, 4, "failed edits are no-ops (swap_cards compensation, mutation is the last fallible step)"),
+    Rule("C16.A", rule_a, 6, "failed edits are no-ops (swap_cards compensation, mutation is the last fallible step)"),
     Rule("C16.W", rule_w, 9, "walkers enumerate with iter_children*, lookups descend with get_child*"),
 ]
